@@ -104,5 +104,30 @@ def parsePipelineK (env : Env P O T V) (vac : P → Bool) : PipelineK P O T → 
       ⟨r2.out, r2.isPtr, r.log ++ r2.log⟩
     | .error e => ⟨.error e, false, r.log⟩
 
+/-- The same with the type dispatch of each base schema made explicit: `ty tag v` says whether the base
+    schema number `tag` takes `v` as a value of its own type (`parsePrimitiveValue` / `parseComplexValue`:
+    anything else — a nil or a value of another kind handed on by a Transform or a Pipe — is an
+    invalid_type error of that schema, reported as `(typeErrTag, [0])`, and none of its checks run). -/
+def typeErrTag : Nat := 999999
+
+def parsePipelineT (env : Env P O T V) (vac : P → Bool) (ty : Nat → V → Bool) : PipelineK P O T → V → Bool → Res V
+  | .base tag ptrSchema container cs, v, ptrIn =>
+    if ty tag v then
+      let r := if container then runChecksC env vac cs v else runChecksOn env ptrSchema ptrIn cs v
+      ⟨if r.issues = [] then .ok r.val else .error (tag, r.issues), ptrSchema, r.log.map (.chk tag)⟩
+    else ⟨.error (typeErrTag, [0]), ptrSchema, []⟩
+  | .transform src i t, v, ptrIn =>
+    let r := parsePipelineT env vac ty src v ptrIn
+    match r.out with
+    | .ok x => ⟨.ok (env.trans t x), false, r.log ++ [.tr i x]⟩
+    | .error e => ⟨.error e, false, r.log⟩
+  | .pipe a b, v, ptrIn =>
+    let r := parsePipelineT env vac ty a v ptrIn
+    match r.out with
+    | .ok x =>
+      let r2 := parsePipelineT env vac ty b x r.isPtr
+      ⟨r2.out, r2.isPtr, r.log ++ r2.log⟩
+    | .error e => ⟨.error e, false, r.log⟩
+
 end
 end Gozod
